@@ -634,6 +634,14 @@ func main() {
 				// device-level defect does not depend on the shape); the whole grid on the default schedule, one
 				// kind per handling path with deviations where the order of role updates and watcher can matter
 				// (the quick tier leaves out the combinations that add nothing on the default schedule: registry quick_scenarios)
+				if s.name == "chd" && ph.op == "START_ACTIVITY" {
+					// default schedule only: a deviation inside START lets the recorded C09 defect fire (the completion of the
+					// hook task is announced before the environment listens for it, the hook is then reported as timed out),
+					// which sends the environment to ERROR for a reason that is not the injected failure - the C09 check
+					// reports that one
+					scs = append(scs, scenario(s, ph, "mesos", b(0, 100), b(0, 600)))
+					break
+				}
 				scs = append(scs, scenario(s, ph, "mesos", b(0, 100), b(1, 600)))
 				if ph.op == "" && s.name != "dn" {
 					scs = append(scs, scenario(s, ph, "mesos-core", b(1, 100), b(2, 600)))
